@@ -380,9 +380,24 @@ def custom_operations(ctx):
                 return
             rng = random.Random(9 + ctx.seed)
             gen = Gen(gs, rng, True)
+            ssx = argenc.schema_sx(gs, cfg_sc)
+            # K1: the generated expressions of custom_queries.py vs Model/Args.v gen_cu
+            tree = ast.parse(g.files()["custom_queries.py"])
+            exprs = {}
+            for node in ast.walk(tree):
+                if isinstance(node, ast.Dict) and len(node.keys) == 2 and all(isinstance(k, ast.Constant) for k in node.keys) \
+                        and [k.value for k in node.keys] == ["type", "value"]:
+                    exprs[ast.unparse(node.values[0])] = ast.unparse(node.values[1])
+            anns = model.batch(ENGINE, [[Sym("ann"), ssx, argenc.type_sx(gs.query_type.fields["echo"].args[n].type)] for n, _t in leaf])
+            for (n, t), r in zip(leaf, anns):
+                run.count()
+                got = exprs.get(repr(t))
+                exp = re.sub(r"\bx\b", process(n, True), r[2][2])
+                if got != exp:
+                    argenc.k1v(run, f"K1 custom operation value of {n}: {t}: generated {got!r} vs model {exp!r}", rep0)
             for k in range(6 if not ctx.thorough else 30):
                 mode = ["full", "null", "rand"][k % 3] if k < 3 else "rand"
-                args, occ, values, list_typed = {}, [], [], False
+                args, occ, values, mcmds = {}, [], [], []
                 for n, t in leaf:
                     gt = gs.query_type.fields["echo"].args[n].type
                     if not isinstance(gt, GraphQLNonNull) and (mode == "null" or rng.random() < 0.3):
@@ -391,6 +406,7 @@ def custom_operations(ctx):
                     args[process(n, True)] = enc
                     occ += oc
                     values.append(it)
+                    mcmds.append([Sym("dlog"), ssx, argenc.type_sx(gt), sx])
                 r = g.driver.ask({"cmd": "call_args", "method": "query", "args": args, "custom": {"field": "echo"}})
                 run.count()
                 run.dist("calls", "custom-operation")
@@ -408,9 +424,11 @@ def custom_operations(ctx):
                     problems.append(f"nothing sent: {r.get('exc')}")
                 elif multiset(list(sent.values())) != multiset(values):
                     problems.append(f"transmitted values {list(sent.values())[:3]} differ from serialize(value) per occurrence {values[:3]}")
-                if problems:
-                    # the failing arguments are list-typed ones (the builder drops list wrappers)
-                    run.finding("F15-custom-operation-list-argument", "custom operation: " + "; ".join(problems[:2]), rep)
+                m_log = [e for r4 in model.batch(ENGINE, mcmds) for e in (model_pylog(r4[3]) or [])]
+                if multiset(log) != multiset(m_log):
+                    argenc.k1v(run, f"K1 custom operation: serialize calls {log[:4]} vs model custom_arg_log {m_log[:4]}", rep)
+                if problems:      # F15 is fixed (/repo 3032a3a): main stream
+                    run.violation("custom operation: " + "; ".join(problems[:2]), rep)
         finally:
             g.stop()
 
@@ -671,10 +689,7 @@ def evaluate(ctx, g, gs, ssx, rows):
                 extra = multiset(par_log) - multiset(exp)
                 missing = multiset(exp) - multiset(par_log)
                 what = f"{kind}: parse calls differ from the non-null occurrences: extra {dict(extra)} missing {dict(missing)}"
-                if kind == "cond" and not missing:
-                    run.finding("F30-conditional-abstract-not-discriminated", what, rep)
-                else:
-                    run.violation(what, rep)
+                run.violation(what, rep)      # (F30, the conditional abstract position, is fixed: /repo cbdf925)
             elif par_log != exp:
                 run.dist("parse_order", "same multiset, different order")
             if ser_log:
@@ -688,7 +703,7 @@ def evaluate(ctx, g, gs, ssx, rows):
             rep["arguments"] = {n: str(sx) for n, _t, sx, _o in payload}
             exp, m_arg, bad_vars = [], [], set()
             for n, t, sx, occ in payload:
-                m_d, m_occ, m_a = next(mres)
+                m_d, m_occ, m_a, _m_cu = next(mres)
                 f10 = "t"
                 m_arg += model_pylog(m_a) or []
                 if occ is not None:
@@ -729,7 +744,7 @@ def evaluate(ctx, g, gs, ssx, rows):
             m_log, f21 = [], False
             for sx in sxs:
                 for t, v in scalar_fields_of_model(gs, sx):
-                    m_d, m_occ, _a = next(mres)
+                    m_d, m_occ, _a, _m_cu = next(mres)
                     md = model_pylog(m_d)
                     m_log += md or []
                     if md != model_pylog(m_occ):
